@@ -141,9 +141,9 @@ def run(cmd, cwd, timeout, env=ENV, limit_as=None):
 def base_commit():
     """the commit of REPO the diffs were generated from (written by gen); every scratch worktree is made at it,
     so a commit added to REPO while a run is in progress does not change what is measured"""
-    p = os.path.join(DIFFS, "BASE")
-    if os.path.exists(p):
-        return open(p).read().strip()
+    for p in (os.path.join(OUT, "BASE"), os.path.join(DIFFS, "BASE")):
+        if os.path.exists(p):
+            return open(p).read().strip()
     return "HEAD"
 
 
@@ -452,6 +452,10 @@ def gen(args):
     # enumerate from a clean checkout of HEAD (not from REPO's working tree) and remember the commit
     head = subprocess.run(["git", "-C", REPO, "rev-parse", "--short", "HEAD"], capture_output=True, text=True, check=True).stdout.strip()
     os.makedirs(DIFFS)
+    os.makedirs(OUT, exist_ok=True)
+    if not os.path.exists(RESULTS) or not os.path.exists(os.path.join(OUT, "BASE")):
+        open(os.path.join(OUT, "BASE"), "w").write(head + "\n")  # a new run: pin it to the current HEAD
+    head = open(os.path.join(OUT, "BASE")).read().strip()  # a resumed run keeps its base
     open(os.path.join(DIFFS, "BASE"), "w").write(head + "\n")
     wt = worktree("w0")
     subprocess.run([os.path.join(SCRATCH, "mutate"), "-repo", wt, "-out", DIFFS], check=True)
